@@ -165,6 +165,17 @@ func main() {
 			fmt.Fprintln(os.Stderr, err)
 			os.Exit(2)
 		}
+	case "trace-chain":
+		st, err := chain.RunTrace(*hdr, *edges, *walks, *seed)
+		if err != nil {
+			fmt.Fprintln(os.Stderr, "trace-chain:", err)
+			os.Exit(2)
+		}
+		b, _ := json.MarshalIndent(st, "", " ")
+		if err := os.WriteFile(*out, b, 0o644); err != nil {
+			fmt.Fprintln(os.Stderr, err)
+			os.Exit(2)
+		}
 	case "trace-minter":
 		st, err := minter.RunTrace(*edges, *walks, *seed)
 		if err != nil {
